@@ -28,6 +28,12 @@ import Reamber.Lemmas.SMDenoteFile
 import Reamber.Lemmas.SMRenderFile
 import Reamber.Lemmas.SMWriteText
 import Reamber.Lemmas.Snapper
+import Reamber.Lemmas.SMTies
+import Reamber.Lemmas.SMTol
+import Reamber.Lemmas.SMChanges
+import Reamber.Lemmas.SMGridCompat
+import Reamber.Lemmas.SMLip
+import Reamber.Lemmas.SMNoCR
 import Mathlib.Tactic.NormNum
 import Reamber.Generated.SMTables
 import Mathlib.Tactic.Ring
@@ -857,6 +863,479 @@ theorem write_read_exact_show (sh : Shows) (hsh : ShowsOK sh) (hsp : ShowsParse 
   · rw [trim_bpmsParam sh hsp]
     exact SM.parsePairs_bpmsParam sh hsp _
 
+/-! ### the tempo hypotheses of `write_read_exact`, discharged from the written header -/
+
+/-- **The tempo-change list a `#BPMS` value denotes is in C10's domain as soon as the pairs are `tempoOk`** (a first entry
+on beat 0, positive tempos, distinct beats — a decidable condition on the written header, evaluated by (S) on every
+case): the changes are well formed with the 4-beat metronome, ascending, the first one at measure 0 beat 0.  Of the six
+tempo hypotheses of `write_read_exact` only `gridCompatible` (the fractional beat distances lie on the snap grid) is a
+condition of its own. -/
+theorem changesOf_domain (bpms : List (Rat × Rat)) (h : tempoOk bpms = true) :
+    wfChanges (changesOf bpms) = true ∧ sortedSnaps (changesOf bpms) = true ∧ firstAtZero (changesOf bpms) = true ∧
+    metronomeOk (changesOf bpms) = true ∧ ∀ c ∈ changesOf bpms, c.met = 4 :=
+  SM.changesOf_domain bpms h
+
+/-- **`write_read_exact_written` — `write_read_exact_show` with the tempo list read off the written header.**  The tempo
+list `cs` and the start time `t0` are no longer parameters tied to the file by hypotheses (`hbp`, `ho`): they *are*
+what the written `#BPMS` / `#OFFSET` denote, and five of the six C10-domain hypotheses follow from `tempoOk w.bpms`
+(`changesOf_domain`).  What remains: `tempoOk` and `gridCompatible` of the written header (both decidable), the
+per-chart domain `ChartWritten` (the chart's timing map is the stored form of that list, objects on the snap grid,
+`EventsOK`, non-overlapping holds), clean strings, and the renderer assumptions. -/
+theorem write_read_exact_written (sh : Shows) (hsh : ShowsOK sh) (hsp : ShowsParse sh)
+    (h : WHeader) (charts : List WChart) (w : Written) (hw : SM.write h charts = .ok w)
+    (htempo : tempoOk w.bpms = true)
+    (hgc : gridCompatible (grid defaultMaxDiv) (changesOf w.bpms) = true)
+    (hL : ∀ c ∈ charts, ∃ out, ChartWritten (-(1000 * w.offsetSec)) (changesOf w.bpms) c out)
+    (hstr : ∀ ta ∈ stringTags, CleanParam ((h.strs.lookup ta.2).getD []))
+    (hch : ∀ c ∈ charts, CleanParam c.chartType ∧ CleanParam c.description ∧ CleanParam c.difficulty ∧
+      '\n' ∉ c.chartType ∧ '\n' ∉ c.difficulty) :
+    ∃ d, denote (renderWritten sh w) = some d ∧ d.offsetSec = some w.offsetSec ∧ d.bpms = some w.bpms ∧
+      d.chartsWellFormed = true ∧ d.charts.length = charts.length ∧
+      ∀ (i : Nat) (hi : i < charts.length) (hd : i < d.charts.length),
+        (d.charts[i]).wellBracketed = true ∧
+        (timedNotes w.offsetSec w.bpms d.charts[i]).Perm ((charts[i]).notes.map timedOfW) := by
+  obtain ⟨hwf, hs, h0, hm, hM⟩ := SM.changesOf_domain w.bpms htempo
+  exact write_read_exact_show sh hsh hsp _ _ hwf hs h0 hgc hm hM h charts w hw hL hstr hch rfl rfl
+
+example : tempoOk [(0, 120), (8, 60), (12, 240)] = true ∧
+    (changesOf [(12, 240), (0, 120), (8, 60)]).map (·.snap.measure) = [0, 2, 3] := by decide +kernel
+
+/-- **`gridCompatible` from the written numbers**: when every written `#BPMS` beat is a multiple of 1/96 beat (measure
+lines, 1/16- and 1/32-beat positions — what the writer emits exactly, `round6_exact` / `round6_sixteenth`), the
+fractional beat distance of consecutive changes is `k/96`, a point of the writer's snap grid. -/
+theorem gridCompatible_of_96ths (bpms : List (Rat × Rat)) (h : ∀ p ∈ bpms, (p.1 * 96).den = 1) :
+    gridCompatible (grid defaultMaxDiv) (changesOf bpms) = true :=
+  SM.gridCompatible_changesOf bpms h
+
+/-- **`write_read_exact_grid96`**: `write_read_exact_written` with no tempo hypothesis left that is not a decidable
+condition on the written header: `tempoOk w.bpms` and every written beat a multiple of 1/96. -/
+theorem write_read_exact_grid96 (sh : Shows) (hsh : ShowsOK sh) (hsp : ShowsParse sh)
+    (h : WHeader) (charts : List WChart) (w : Written) (hw : SM.write h charts = .ok w)
+    (htempo : tempoOk w.bpms = true) (h96 : ∀ p ∈ w.bpms, (p.1 * 96).den = 1)
+    (hL : ∀ c ∈ charts, ∃ out, ChartWritten (-(1000 * w.offsetSec)) (changesOf w.bpms) c out)
+    (hstr : ∀ ta ∈ stringTags, CleanParam ((h.strs.lookup ta.2).getD []))
+    (hch : ∀ c ∈ charts, CleanParam c.chartType ∧ CleanParam c.description ∧ CleanParam c.difficulty ∧
+      '\n' ∉ c.chartType ∧ '\n' ∉ c.difficulty) :
+    ∃ d, denote (renderWritten sh w) = some d ∧ d.offsetSec = some w.offsetSec ∧ d.bpms = some w.bpms ∧
+      d.chartsWellFormed = true ∧ d.charts.length = charts.length ∧
+      ∀ (i : Nat) (hi : i < charts.length) (hd : i < d.charts.length),
+        (d.charts[i]).wellBracketed = true ∧
+        (timedNotes w.offsetSec w.bpms d.charts[i]).Perm ((charts[i]).notes.map timedOfW) :=
+  write_read_exact_written sh hsh hsp h charts w hw htempo (SM.gridCompatible_changesOf w.bpms h96) hL hstr hch
+
+/-! ### `#BPMS` entries on one beat (tempo rows at one offset) -/
+
+theorem snapOfBeat_zero_le (beat : Rat) (hb : 0 ≤ beat) : (snapOfBeat 0).le (snapOfBeat beat) = true := by
+  have hm : (0 : Int) ≤ (beat / 4).floor :=
+    Rat.le_floor_iff.mpr (by simpa using div_nonneg hb (by norm_num : (0 : Rat) ≤ 4))
+  have hfl := Rat.floor_le (beat / 4)
+  have h0 : snapOfBeat 0 = ⟨0, 0, some 4⟩ := by
+    have := snapOfBeat_measure_line 0
+    simpa using this
+  rw [h0]
+  simp only [snapOfBeat, Snap.le, Snap.lt, Snap.eqv, Bool.or_eq_true, Bool.and_eq_true, decide_eq_true_eq]
+  rcases lt_or_eq_of_le hm with h | h
+  · exact Or.inl (Or.inl (decide_eq_true h))
+  · have hnn : (0 : Rat) ≤ beat - 4 * (((beat / 4).floor : Int) : Rat) := by
+      have : (((beat / 4).floor : Int) : Rat) ≤ beat / 4 := hfl
+      linarith
+    rcases lt_or_eq_of_le hnn with h' | h'
+    · exact Or.inl (Or.inr ⟨decide_eq_true h, decide_eq_true h'⟩)
+    · exact Or.inr ⟨decide_eq_true h, decide_eq_true h'⟩
+
+/-- **`tie_later_wins` — of several `#BPMS` entries on one beat the last one in file order is in force.**  For a
+`#BPMS` list with a first entry on beat 0 and positive tempos, entries on equal beats allowed (`tempoOkWeak`): the
+millisecond position of every beat ≥ 0 is the one obtained from the list without the overridden entries
+(`effectivePairs`: ascending by beat, of the entries of one beat only the last one of the file), and that list is in
+the domain of `write_read_exact` / C02 (`tempoOk`: distinct beats).  So a tempo list with rows at one offset, written
+row by row, denotes what the list of the rows in force denotes — and a writer that emits tied rows in another order
+(an unstable sort) denotes another tempo list. -/
+theorem tie_later_wins (offsetSec : Rat) (bpms : List (Rat × Rat)) (h : tempoOkWeak bpms = true) :
+    tempoOk (effectivePairs bpms) = true ∧
+    ∀ beat : Rat, 0 ≤ beat → timeOfBeat offsetSec bpms beat = timeOfBeat offsetSec (effectivePairs bpms) beat := by
+  have hsorted := isort_pairs_sorted bpms
+  have hstrict : (effectivePairs bpms).Pairwise (fun a b => a.1 < b.1) := dropOverridden_strict _ hsorted
+  have hself : isort (fun a b : Rat × Rat => decide (a.1 ≤ b.1)) (effectivePairs bpms) = effectivePairs bpms := by
+    apply isort_eq_self
+    refine hstrict.imp ?_
+    intro a b hab
+    simpa using le_of_lt hab
+  unfold tempoOkWeak at h
+  simp only [Bool.and_eq_true] at h
+  obtain ⟨hhead, hpos⟩ := h
+  -- the sorted list is `p :: l` with `p` on beat 0
+  cases hl : isort (fun a b : Rat × Rat => decide (a.1 ≤ b.1)) bpms with
+  | nil => rw [hl] at hhead; simp at hhead
+  | cons p l =>
+    rw [hl] at hhead hpos
+    have hp0 : p.1 = 0 := by simpa using hhead
+    refine ⟨?_, ?_⟩
+    · -- `tempoOk` of the entries in force
+      obtain ⟨q, l', e, hq⟩ := dropOverridden_head p l
+      have heff : effectivePairs bpms = q :: l' := by unfold effectivePairs; rw [hl]; exact e
+      unfold tempoOk
+      simp only [hself]
+      rw [heff] at hstrict ⊢
+      simp only [Bool.and_eq_true]
+      refine ⟨⟨by simp [hq, hp0], ?_⟩, ?_⟩
+      · rw [List.all_eq_true]
+        intro z hz
+        have hmem : ∀ (l : List (Rat × Rat)) z, z ∈ dropOverridden l → z ∈ l := by
+          intro l
+          induction l with
+          | nil => intro z hz; simp [dropOverridden] at hz
+          | cons a t iht =>
+            intro z hz
+            cases t with
+            | nil => simpa [dropOverridden] using hz
+            | cons b u =>
+              by_cases e' : a.1 = b.1
+              · simp only [dropOverridden, e', if_true] at hz
+                exact List.mem_cons_of_mem _ (iht z hz)
+              · simp only [dropOverridden, e', if_false] at hz
+                rcases List.mem_cons.mp hz with rfl | hz'
+                · simp
+                · exact List.mem_cons_of_mem _ (iht z hz')
+        have : z ∈ p :: l := hmem _ z (by rw [e]; exact hz)
+        exact (List.all_eq_true.mp hpos) z this
+      · rw [List.all_eq_true]
+        intro pq hpq
+        simp only [decide_eq_true_eq]
+        -- consecutive elements of a strictly ascending list
+        have key : ∀ (L : List (Rat × Rat)), L.Pairwise (fun a b => a.1 < b.1) → ∀ pq ∈ L.zip L.tail, pq.1.1 < pq.2.1 := by
+          intro L
+          induction L with
+          | nil => intro _ pq hpq; simp at hpq
+          | cons a t iht =>
+            intro hP pq hpq
+            cases t with
+            | nil => simp at hpq
+            | cons b u =>
+              have hP' := List.pairwise_cons.mp hP
+              simp only [List.tail_cons, List.zip_cons_cons, List.mem_cons] at hpq
+              rcases hpq with rfl | hpq
+              · exact hP'.1 b (by simp)
+              · exact iht hP'.2 pq (by simpa using hpq)
+        exact key _ hstrict pq hpq
+    · intro beat hb
+      have hle : (snapOfBeat p.1).le (snapOfBeat beat) = true := by rw [hp0]; exact snapOfBeat_zero_le beat hb
+      obtain ⟨q, l', e, _, ht⟩ := timeAtAux_dropOverridden l p (-(1000 * offsetSec)) (snapOfBeat beat) hle
+      have heff : effectivePairs bpms = q :: l' := by unfold effectivePairs; rw [hl]; exact e
+      unfold timeOfBeat
+      rw [changesOf_eq, changesOf_eq, hself, hl, heff]
+      simpa [timeAt] using ht
+
+/-- non-vacuity and the effect of the order of tied entries: `8=60, 8=240` is 240 bpm from beat 8 on, `8=240, 8=60`
+is 60 bpm — beat 12 lies at 5000 ms in the first file and at 8000 ms in the second -/
+example :
+    tempoOkWeak [(0, 120), (8, 60), (8, 240)] = true ∧ tempoOk [(0, 120), (8, 60), (8, 240)] = false ∧
+    effectivePairs [(8, 60), (0, 120), (8, 240)] = [(0, 120), (8, 240)] ∧
+    timeOfBeat 0 [(0, 120), (8, 60), (8, 240)] 12 = 5000 ∧ timeOfBeat 0 [(0, 120), (8, 240), (8, 60)] 12 = 8000 := by
+  decide +kernel
+
+/-- the order of tied entries matters: `8=60, 8=240` is 240 bpm from beat 8 on, `8=240, 8=60` is 60 bpm — beat 12
+lies at 5000 ms in the first file and at 8000 ms in the second (what a writer that sorts the rows unstably produces
+for the same in-memory list; replayed on the implementation by the corpus cases with tied rows) -/
+theorem tie_order_counterexample :
+    effectivePairs [(0, 120), (8, 60), (8, 240)] = [(0, 120), (8, 240)] ∧
+    effectivePairs [(0, 120), (8, 240), (8, 60)] = [(0, 120), (8, 60)] ∧
+    timeOfBeat 0 [(0, 120), (8, 60), (8, 240)] 12 = 5000 ∧ timeOfBeat 0 [(0, 120), (8, 240), (8, 60)] 12 = 8000 := by
+  decide +kernel
+
+/-! ### the tolerance regime ("within the written grid: 1/96 beat at the local tempo") -/
+
+/-- **The row count of a measure is the LCM of its objects' denominators capped at `MAX_SNAP`** —
+`min(reduce(lcm_and_cap, dens), 384) = min(lcm(dens), 384)`: either the LCM itself (`den_dvd_denMax`: every row exact)
+or exactly 384. -/
+theorem denMax_eq_min_lcm (d : Nat) (t : List Nat) (hpos : ∀ x ∈ d :: t, 0 < x) :
+    denMax (d :: t) = min (t.foldl Nat.lcm d) maxSnap :=
+  SM.denMax_eq_min_lcm d t hpos
+
+/-- **`written_beat_tolerance` — positions.**  For an object at (snapped) beat `beat` in a measure whose objects have the
+denominators `d :: t` (its own among them): the row the writer chooses, read by `4m + 4r/R`, lies at or before `beat`
+and less than 1/96 beat before it — and exactly at `beat` whenever the measure's LCM fits 384 rows. -/
+theorem written_beat_tolerance (beat : Rat) (col : Nat) (ch : Char) (d : Nat) (t : List Nat)
+    (hpos : ∀ x ∈ d :: t, 0 < x) (hmem : (slotOf beat col ch).den ∈ d :: t) :
+    4 * ((slotOf beat col ch).measure : Rat) +
+        4 * ((rowOf (slotOf beat col ch).num (slotOf beat col ch).den (denMax (d :: t)) : Nat) : Rat) /
+          (denMax (d :: t) : Rat) ≤ beat ∧
+    beat - (4 * ((slotOf beat col ch).measure : Rat) +
+        4 * ((rowOf (slotOf beat col ch).num (slotOf beat col ch).den (denMax (d :: t)) : Nat) : Rat) /
+          (denMax (d :: t) : Rat)) < 1 / 96 ∧
+    (t.foldl Nat.lcm d ≤ maxSnap →
+      4 * ((slotOf beat col ch).measure : Rat) +
+        4 * ((rowOf (slotOf beat col ch).num (slotOf beat col ch).den (denMax (d :: t)) : Nat) : Rat) /
+          (denMax (d :: t) : Rat) = beat) := by
+  have hd : 0 < d := hpos d (by simp)
+  have ht : ∀ x ∈ t, 0 < x := fun x hx => hpos x (List.mem_cons_of_mem _ hx)
+  have hL : 0 < t.foldl Nat.lcm d := foldl_lcm_pos d t hd ht
+  have hdm := SM.denMax_eq_min_lcm d t hpos
+  have hexact : t.foldl Nat.lcm d ≤ maxSnap →
+      4 * ((slotOf beat col ch).measure : Rat) +
+        4 * ((rowOf (slotOf beat col ch).num (slotOf beat col ch).den (denMax (d :: t)) : Nat) : Rat) /
+          (denMax (d :: t) : Rat) = beat := by
+    intro hfit
+    have hdvd := den_dvd_denMax d t hpos hfit _ hmem
+    have hp : 0 < denMax (d :: t) := by rw [hdm, Nat.min_eq_left hfit]; exact hL
+    exact SM.slot_beat_exact beat col ch _ hp hdvd
+  by_cases hfit : t.foldl Nat.lcm d ≤ maxSnap
+  · have e := hexact hfit
+    refine ⟨le_of_eq e, ?_, hexact⟩
+    rw [e]; norm_num
+  · have h384 : denMax (d :: t) = 384 := by
+      rw [hdm]; exact Nat.min_eq_right (Nat.le_of_lt (Nat.lt_of_not_le hfit))
+    rw [h384]
+    obtain ⟨h1, h2⟩ := SM.written_beat_within_row beat col ch 384 (by decide)
+    refine ⟨h1, ?_, fun h => absurd h hfit⟩
+    have : (4 : Rat) / ((384 : Nat) : Rat) = 1 / 96 := by norm_num
+    rw [this] at h2
+    linarith
+
+/-- **`written_time_tolerance` — times.**  Two beats `w ≤ b` less than 1/96 beat apart that lie in one tempo segment of
+the written `#BPMS` (every entry is at or before both or after both) are less than 1/96 of that segment's beat length
+apart in time: with `written_beat_tolerance`, the StepMania time of the written row is at most "1/96 beat at the local
+tempo" before the time of the object's beat. -/
+theorem written_time_tolerance (offsetSec : Rat) (bpms : List (Rat × Rat)) (w b : Rat) (hw : w ≤ b) (hlt : b - w < 1 / 96)
+    (hpos : ∀ p ∈ bpms, 0 < p.2)
+    (hseg : ∀ c ∈ changesOf bpms, c.snap.le (snapOfBeat w) = c.snap.le (snapOfBeat b)) :
+    0 ≤ timeOfBeat offsetSec bpms b - timeOfBeat offsetSec bpms w ∧
+    (bpms ≠ [] → timeOfBeat offsetSec bpms b - timeOfBeat offsetSec bpms w <
+      beatLen (activeChange (changesOf bpms) (snapOfBeat w)).bpm / 96) := by
+  unfold timeOfBeat
+  cases hcs : changesOf bpms with
+  | nil =>
+    refine ⟨by simp [timeAt], fun hne => ?_⟩
+    exfalso
+    rw [changesOf_eq] at hcs
+    have h1 : isort (fun a b : Rat × Rat => decide (a.1 ≤ b.1)) bpms = [] := List.map_eq_nil_iff.mp hcs
+    have h2 := (Reamber.Analysis.isort_perm (fun a b : Rat × Rat => decide (a.1 ≤ b.1)) bpms)
+    rw [h1] at h2
+    exact hne h2.symm.eq_nil
+  | cons c rest =>
+    rw [hcs] at hseg
+    have hd := timeAtAux_same_segment (-(1000 * offsetSec)) c rest (snapOfBeat w) (snapOfBeat b)
+      (fun x hx => hseg x (List.mem_cons_of_mem _ hx))
+    -- the change in force is one of the written pairs: metronome 4, positive tempo
+    have hmem : activeAux c rest (snapOfBeat w) ∈ changesOf bpms := by rw [hcs]; exact activeAux_mem c rest _
+    rw [changesOf_eq] at hmem
+    obtain ⟨p, hp, hpe⟩ := List.mem_map.mp hmem
+    have hp' : p ∈ bpms := (Reamber.Analysis.isort_perm _ bpms).mem_iff.mp hp
+    have hmet : (activeAux c rest (snapOfBeat w)).met = 4 := by rw [← hpe]; rfl
+    have hbpm : 0 < (activeAux c rest (snapOfBeat w)).bpm := by rw [← hpe]; exact hpos p hp'
+    have hbl : 0 < beatLen (activeAux c rest (snapOfBeat w)).bpm := by
+      unfold beatLen minToMsec; positivity
+    rw [hmet, snapDist_snapOfBeat] at hd
+    simp only [timeAt, activeChange]
+    rw [hd]
+    refine ⟨mul_nonneg (by linarith) (le_of_lt hbl), fun _ => ?_⟩
+    have : (b - w) * beatLen (activeAux c rest (snapOfBeat w)).bpm <
+        1 / 96 * beatLen (activeAux c rest (snapOfBeat w)).bpm := mul_lt_mul_of_pos_right hlt hbl
+    linarith
+
+/-- **`written_time_lipschitz` — times, across tempo changes.**  For a `#BPMS` list with a first entry on beat 0 and
+positive tempos (entries on one beat allowed) and any bound `M` of the beat lengths of its entries: time is a monotone
+function of the beat and grows by at most `M` per beat — for beats `0 ≤ w ≤ b`, whatever tempo changes lie between
+them, `0 ≤ time b − time w ≤ (b − w)·M`; in particular a row less than 1/96 beat before its object
+(`written_beat_tolerance`) is less than `M/96` ms before it.  (`written_time_tolerance` is the sharper statement with the
+beat length in force when no change separates the two; the check uses the longest beat length *between* row and
+object, which lies between the two statements and is not a theorem.) -/
+theorem written_time_lipschitz (offsetSec : Rat) (bpms : List (Rat × Rat)) (M w b : Rat)
+    (hok : tempoOkWeak bpms = true) (hM : ∀ p ∈ bpms, beatLen p.2 ≤ M) (hw : 0 ≤ w) (hwb : w ≤ b) :
+    0 ≤ timeOfBeat offsetSec bpms b - timeOfBeat offsetSec bpms w ∧
+    timeOfBeat offsetSec bpms b - timeOfBeat offsetSec bpms w ≤ (b - w) * M ∧
+    (b - w < 1 / 96 → timeOfBeat offsetSec bpms b - timeOfBeat offsetSec bpms w < M / 96) := by
+  have hsorted := isort_pairs_sorted bpms
+  have hperm := Reamber.Analysis.isort_perm (fun a b : Rat × Rat => decide (a.1 ≤ b.1)) bpms
+  unfold tempoOkWeak at hok
+  simp only [Bool.and_eq_true] at hok
+  obtain ⟨hhead, hpos⟩ := hok
+  unfold timeOfBeat
+  rw [changesOf_eq]
+  generalize isort (fun a b : Rat × Rat => decide (a.1 ≤ b.1)) bpms = s at hsorted hperm hhead hpos
+  cases s with
+  | nil => simp at hhead
+  | cons p l =>
+    have hp0 : p.1 = 0 := by simpa using hhead
+    have hpos' : ∀ q ∈ p :: l, 0 < q.2 := by
+      intro q hq
+      have := (List.all_eq_true.mp hpos) q hq
+      simpa using this
+    have hM' : ∀ q ∈ p :: l, beatLen q.2 ≤ M := fun q hq => hM q (hperm.mem_iff.mp hq)
+    obtain ⟨h1, h2⟩ := timeAtAux_lipschitz M (-(1000 * offsetSec)) p l w b hsorted hpos' hM' (by rw [hp0]; exact hw) hwb
+    simp only [List.map_cons, timeAt]
+    refine ⟨h1, h2, fun hlt => ?_⟩
+    have hMpos : 0 < M := lt_of_lt_of_le (SM.beatLen_pos (hpos' p (by simp))) (hM' p (by simp))
+    have : (b - w) * M < 1 / 96 * M := mul_lt_mul_of_pos_right hlt hMpos
+    linarith
+
+/-- non-vacuity: an object at beat 5/9 in a measure with denominators 128, 36, 20 is written in row 53 of 384 (beat
+53/96), 1/288 beat early; at 120 bpm that is 125/72 ms, the bound being 500/96 = 125/24 ms -/
+example : (slotOf (5 / 9) 0 '1').den ∈ [128, 36, 20] ∧
+    timeOfBeat 0 [(0, 120)] (5 / 9) - timeOfBeat 0 [(0, 120)] (53 / 96) = 125 / 72 ∧
+    beatLen (activeChange (changesOf [(0, 120)]) (snapOfBeat (53 / 96))).bpm / 96 = 125 / 24 := by
+  decide +kernel
+
+/-! ### hypotheses of `write_read_exact` that cannot be dropped (each replayed on the implementation: the corpus of
+`harness/props/c03.py` holds the same inputs, and (C) compares the implementation's text with the model's) -/
+
+/-- "every denominator divides its measure's row count" (`EventsOK`): with denominators 128, 36, 20 in one measure the
+row count is capped at 384, 36 ∤ 384, and the object at beat 5/9 is written at beat 53/96 — 1/288 beat early (inside
+the 1/96-beat regime of `written_beat_tolerance`, but not exact). -/
+theorem cap_counterexample :
+    denMax [128, 36, 20] = 384 ∧ ¬ (36 ∣ 384) ∧ (slotOf (5 / 9) 0 '1').den = 36 ∧ (slotOf (5 / 9) 0 '1').num = 5 ∧
+    4 * ((rowOf 5 36 384 : Nat) : Rat) / 384 ≠ 5 / 9 ∧ (5 / 9 : Rat) - 4 * ((rowOf 5 36 384 : Nat) : Rat) / 384 = 1 / 288 := by
+  decide +kernel
+
+/-- "no two events in one (column, beat)" (`EventsOK`): a tap and a mine in one cell — only the later one of the
+writer's order is in the text, the file denotes one object fewer. -/
+theorem collision_counterexample :
+    (fillMeasure 4 [⟨0, 0, 4, 1, '1'⟩, ⟨0, 0, 4, 1, 'M'⟩, ⟨0, 1, 4, 2, '1'⟩]).toOption =
+      some [['0', 'M', '0', '0'], ['0', '0', '1', '0'], ['0', '0', '0', '0'], ['0', '0', '0', '0']] := by
+  decide +kernel
+
+/-- "holds/rolls of one column do not overlap" (`NoOverlap`): head, head, tail, tail in one column is not
+well-bracketed — the pairing fails on the second head and one object is left. -/
+theorem overlap_counterexample :
+    let evs : List SEv := [(0, 0, .head .hold), (0, 1, .head .hold), (0, 2, .tail), (0, 3, .tail)]
+    (pairAll evs).ok = false ∧ (pairAll evs).notes.length = 1 := by
+  decide +kernel
+
+/-- "`−1000·#OFFSET` = the first tempo point" (the property's domain; hypothesis `ho`): with another offset every time
+of the file is displaced by the difference. -/
+theorem offset_counterexample :
+    timeOfBeat 0 [(0, 120)] 4 = 2000 ∧ timeOfBeat (-1) [(0, 120)] 4 = 3000 := by
+  decide +kernel
+
+/-! ### the file entry point (`SMMapSet.write_file` / `SMMapSet.read_file`) -/
+
+/-- universal newlines leave a text without carriage returns as it is -/
+theorem univNl_noCR : ∀ (t : Str), '\r' ∉ t → univNl t = t
+  | [], _ => rfl
+  | c :: t, h => by
+    have hc : c ≠ '\r' := fun e => h (by simp [e])
+    have ht : '\r' ∉ t := fun e => h (List.mem_cons_of_mem _ e)
+    have e : univNl (c :: t) = c :: univNl t := by
+      conv_lhs => unfold univNl
+      split
+      · rename_i h1; simp at h1
+      · rename_i h1; simp at h1; exact absurd h1.1 hc
+      · rename_i h1; simp at h1; exact absurd h1.1 hc
+      · rename_i h1; simp at h1; obtain ⟨rfl, rfl⟩ := h1; rfl
+    rw [e, univNl_noCR t ht]
+
+/-- **The file entry point.**  `SMMapSet.write_file` stores the text of `write()` (utf-8, text mode: on this platform
+line breaks are written as they are; (C) compares the content of the file with `renderWritten` on every `write_file`
+case), `SMMapSet.read_file` decodes it with universal newlines and hands it to `read`.  For a text without carriage
+returns — every text of the writer whose header strings have none — reading the file is reading the text, and the
+denotation of the file's content is the denotation of the text, so `write_read_exact_show` speaks about the file. -/
+theorem write_file_read_file (text : Str) (h : '\r' ∉ text) :
+    SM.readFile text = SM.read text ∧ denote (univNl text) = denote text := by
+  unfold SM.readFile
+  rw [univNl_noCR text h]
+  exact ⟨rfl, rfl⟩
+
+/-- … and with a carriage return inside a header string it is not: the value read back from the file has a line break
+in its place (`'\r'` in header strings is outside the domain of the file entry point) -/
+theorem file_cr_counterexample :
+    univNl ['#','T','I','T','L','E',':','a','\r','b',';'] = ['#','T','I','T','L','E',':','a','\n','b',';'] := by decide
+
+/-- **The writer's text has no carriage return when its inputs have none** (header strings, chart type, description,
+difficulty, the number renderer's outputs; the note rows never have one): with `write_file_read_file`, the file
+written by `write_file` is read by `read_file` as the text is read by `read`. -/
+theorem renderWritten_noCR (sh : Shows) (w : Written) (hstr : ∀ tv ∈ w.strs, '\r' ∉ tv.1 ∧ '\r' ∉ tv.2)
+    (hsel : '\r' ∉ w.selectable) (hrat : ∀ q, '\r' ∉ sh.rat q) (hint : ∀ i, '\r' ∉ sh.int i)
+    (hch : ∀ c ∈ w.charts, '\r' ∉ c.chartType ∧ '\r' ∉ c.description ∧ '\r' ∉ c.difficulty ∧
+      ∀ rows ∈ c.measures, ∀ r ∈ rows, '\r' ∉ r) : '\r' ∉ renderWritten sh w := by
+  unfold renderWritten
+  apply noCR_joinWith
+  · simp [cr_ne.1]
+  · intro line hl
+    rcases List.mem_append.mp hl with hl | hl
+    · exact headerLines_noCR sh w hstr hsel hrat line hl
+    · obtain ⟨ls, hls, hline⟩ := List.mem_flatten.mp hl
+      obtain ⟨c, hc, rfl⟩ := List.mem_map.mp hls
+      obtain ⟨a, b, d, e⟩ := hch c hc
+      exact chartLines_noCR sh c hrat hint a b d e line hline
+
+/-- **`write_file` → `read_file` on the writer's own text**: with inputs free of carriage returns, `read_file` of the
+file `write_file` stores is `read` of the text, and the file's content denotes what the text denotes. -/
+theorem write_file_read_file_written (sh : Shows) (w : Written) (hstr : ∀ tv ∈ w.strs, '\r' ∉ tv.1 ∧ '\r' ∉ tv.2)
+    (hsel : '\r' ∉ w.selectable) (hrat : ∀ q, '\r' ∉ sh.rat q) (hint : ∀ i, '\r' ∉ sh.int i)
+    (hch : ∀ c ∈ w.charts, '\r' ∉ c.chartType ∧ '\r' ∉ c.description ∧ '\r' ∉ c.difficulty ∧
+      ∀ rows ∈ c.measures, ∀ r ∈ rows, '\r' ∉ r) :
+    SM.readFile (renderWritten sh w) = SM.read (renderWritten sh w) ∧
+    denote (univNl (renderWritten sh w)) = denote (renderWritten sh w) :=
+  write_file_read_file _ (renderWritten_noCR sh w hstr hsel hrat hint hch)
+
+/-! ### the chart header parameters (meter, radar values) -/
+
+theorem mapE_parse (sh : Shows) (h : ShowsParse sh) : ∀ (g : List Rat), mapE parseFloat (g.map sh.rat) = .ok g
+  | [] => rfl
+  | q :: t => by
+    simp only [List.map_cons, mapE, h.parse q, mapE_parse sh h t, bind, Except.bind]
+
+/-- **The groove-radar parameter reads back**: `",".join(map(str, groove_radar))` over number texts is split and parsed by
+the specification into exactly the written values (the chart header parameter `radar` of the denoted chart). -/
+theorem radar_roundtrip (sh : Shows) (h : ShowsParse sh) (groove : List Rat) (hne : groove ≠ [])
+    (p0 p1 p2 p3 data : Str) :
+    (denoteChart [p0, p1, p2, p3, trim (joinWith [','] (groove.map sh.rat)), data]).radar = some groove := by
+  have hws : ∀ c ∈ joinWith [','] (groove.map sh.rat), isWs c = false := by
+    intro c hc
+    rcases mem_joinWith _ _ c hc with h1 | ⟨p, hp, hcp⟩
+    · simp only [List.mem_singleton] at h1; subst h1; decide
+    · obtain ⟨q, _, rfl⟩ := List.mem_map.mp hp
+      exact ((h.text q).2 c hcp).1
+  have hsplit : splitOn ',' (joinWith [','] (groove.map sh.rat)) = groove.map sh.rat := by
+    apply splitOn_joinWith ',' _ (by simpa using hne)
+    intro p hp hm
+    obtain ⟨q, _, rfl⟩ := List.mem_map.mp hp
+    exact ((h.text q).2 _ hm).2.1 rfl
+  have htrim : (groove.map sh.rat).map trim = groove.map sh.rat := by
+    rw [List.map_map]
+    apply List.map_congr_left
+    intro q _
+    exact trim_noWs _ (fun c hc => ((h.text q).2 c hc).1)
+  simp only [denoteChart, List.getD_cons_succ, List.getD_cons_zero, trim_noWs _ hws, hsplit, htrim, mapE_parse sh h groove]
+  rfl
+
+/-- **The five header parameters of a written chart read back**: the `#NOTES` value the writer lays out for a chart
+(`write_read_exact_text` builds exactly these parameters) denotes the chart type, description and difficulty as written
+(MSD-trimmed), the meter (`str(int)` parsing back being the renderer assumption in applied form) and the radar values. -/
+theorem chart_header_roundtrip (sh : Shows) (h : ShowsParse sh) (c : WrittenChart) (hne : c.groove ≠ [])
+    (hint : parseInt (trim (sh.int c.difficultyVal)) = .ok c.difficultyVal) (data : Str) :
+    (denoteChart [trim c.chartType, trim c.description, trim c.difficulty, trim (sh.int c.difficultyVal),
+      trim (joinWith [','] (c.groove.map sh.rat)), data]).chartType = trim c.chartType ∧
+    (denoteChart [trim c.chartType, trim c.description, trim c.difficulty, trim (sh.int c.difficultyVal),
+      trim (joinWith [','] (c.groove.map sh.rat)), data]).description = trim c.description ∧
+    (denoteChart [trim c.chartType, trim c.description, trim c.difficulty, trim (sh.int c.difficultyVal),
+      trim (joinWith [','] (c.groove.map sh.rat)), data]).difficulty = trim c.difficulty ∧
+    (denoteChart [trim c.chartType, trim c.description, trim c.difficulty, trim (sh.int c.difficultyVal),
+      trim (joinWith [','] (c.groove.map sh.rat)), data]).meter = some c.difficultyVal ∧
+    (denoteChart [trim c.chartType, trim c.description, trim c.difficulty, trim (sh.int c.difficultyVal),
+      trim (joinWith [','] (c.groove.map sh.rat)), data]).radar = some c.groove := by
+  refine ⟨rfl, rfl, rfl, ?_, radar_roundtrip sh h c.groove hne _ _ _ _ _⟩
+  simp [denoteChart, hint, Except.toOption]
+
+/-! ### charts without objects -/
+
+/-- **The hypothesis `c.notes ≠ []` of `ChartWritten` is not a restriction of the writer**: for a chart without objects
+(a keyed chart type) `SMMap.write` emits no measure at all … -/
+theorem empty_chart_rows (c : WChart) (h : c.notes = []) (keys : Nat) (hk : getKeys c.chartType = some keys) :
+    writeChartRows c = .ok [] := by
+  unfold writeChartRows
+  have : writeOrder c.notes = [] := by rw [h]; rfl
+  simp [this, beats, bind, Except.bind, hk]
+  rfl
+
+/-- … and the `#NOTES` value written for it (empty note data between two line breaks) denotes no object and is
+well-bracketed.  The whole-file theorem still carries `c.notes ≠ []` inside `ChartWritten` (its note data goes through
+`scanRows_renderRows`, stated for at least one measure): for an empty chart the statement holds by these two facts, but
+the assembly for files that mix empty and non-empty charts is not done. -/
+theorem empty_chart_denote (p0 p1 p2 p3 p4 : Str) :
+    (denoteChart [p0, p1, p2, p3, p4, trim ('\n' :: (renderRows [] ++ ['\n']))]).notes = [] ∧
+    (denoteChart [p0, p1, p2, p3, p4, trim ('\n' :: (renderRows [] ++ ['\n']))]).wellBracketed = true := by
+  constructor <;> rfl
+
 /-!
 what is still missing for the full `write_read_exact` for the single statement "denote (write ms) = ms":
 Proved chain: `written_beats_exact` (slotted beat = `beatAt t`) → `slot_beat_exact` (row denotes that beat) →
@@ -875,6 +1354,14 @@ NOT proved (`write_read_exact` for the whole file stays `_partial`):
   `parseFloat (sh.rat q) = .ok q` on number texts);
 * the numeric header lines (`#OFFSET`, `#SAMPLESTART`, `#SAMPLELENGTH`, bpm values): they depend on Python's float
   `repr`; the assumption to be carried is `parseFloat (show q) = .ok q` for the renderer `show` (a parameter, as in C01).
+* (proved since, round 5: `changesOf_domain`, `gridCompatible_of_96ths`, `write_read_exact_written`, `write_read_exact_grid96` — the
+  tempo hypotheses are decidable conditions on the written header; `tie_later_wins` for `#BPMS` entries on one beat;
+  the tolerance regime `written_beat_tolerance` / `written_time_tolerance`; the file entry point `write_file_read_file`;
+  counterexamples for the hypotheses that cannot be dropped);
+* not proved: that tempo rows at one offset in memory are written so that the later row is in force (the link from
+  `toTimingMap` with tied rows to `effectivePairs` of the written pairs — compared on every tied case by (S)); the time
+  bound with the longest beat length *between* a row and its object (`written_time_lipschitz` has the longest of the
+  whole list).
 The check evaluates the whole composition on every case (S).
 -/
 
